@@ -2,11 +2,7 @@ package main
 
 import (
 	"fmt"
-	"go/types"
 	"os"
-	"sort"
-
-	"golang.org/x/tools/go/ssa"
 
 	"lbcheck/eng"
 	"lbcheck/ir"
@@ -18,33 +14,14 @@ func main() {
 		fmt.Println(err)
 		os.Exit(1)
 	}
-	c := eng.NewCtx(p, "dbg", "quick")
-	roots := []*ssa.Function{p.Func("server.(*Server).apply"), p.Func("server.(*Server).Restore"), p.Func("server.(*Server).finishedRecovery"), p.Func("server.(*Server).Snapshot")}
-	boundary := map[string]bool{"server.(*partition).startLeadingOrFollowing": true, "server.(*consumerGroup).startMemberTimers": true, "server.(*consumerGroup).startMemberTimer": true, "server/commitlog.New": true,
-		"server.(*partition).stopLeadingOrFollowing": true}
-	P := c.Reachable(roots, boundary, false)
-	var keys []string
-	for f := range P {
-		keys = append(keys, ir.FuncKey(f))
-	}
-	sort.Strings(keys)
-	fmt.Println("P size", len(keys))
-	for _, k := range keys {
-		f := p.Func(k)
-		eng.Instrs(f, func(in ssa.Instruction) {
-			if r, ok := in.(*ssa.Range); ok {
-				if _, ok := r.X.Type().Underlying().(*types.Map); ok {
-					fmt.Println("MAPRANGE", k, p.InstrPos(in), eng.Describe(r.X))
-				}
+	n := 0
+	for _, fn := range p.Funcs {
+		for _, f := range eng.LockPairing(fn) {
+			n++
+			if !f.OK {
+				fmt.Println("UNPAIRED", ir.FuncKey(fn), p.InstrPos(f.Instr), f.Mutex, f.Detail)
 			}
-			if _, ok := in.(*ssa.Go); ok {
-				fmt.Println("GO", k, p.InstrPos(in))
-			}
-		})
-	}
-	if len(os.Args) > 1 {
-		for _, k := range keys {
-			fmt.Println(" ", k)
 		}
 	}
+	fmt.Println("lock sites", n)
 }
